@@ -135,6 +135,7 @@ proof fn lemma_sorted_push(s: Seq<Seq<u8>>, k: Seq<u8>)
 }
 
 /// two strictly increasing enumerations of the same set are equal
+#[verifier::spinoff_prover]
 pub proof fn lemma_enum_unique(d: Set<Seq<u8>>, s1: Seq<Seq<u8>>, s2: Seq<Seq<u8>>)
     requires is_key_enum(d, s1), is_key_enum(d, s2),
     ensures s1 == s2,
